@@ -35,6 +35,7 @@ func runC01(c *Ctx) {
 	c01Purity(c)
 	c01Single(c)
 	c01PerInterface(c)
+	c01Pref64Lifetime(c)
 	// "exactly the options the configuration calls for … for every interface address list / loopback
 	// route list": the wildcard stanzas expand by the rules of C13–C15, which are shared here
 	runC13(c)
@@ -591,4 +592,114 @@ func c01PerInterface(c *Ctx) {
 		})
 	}
 	c.R.Check(n >= 1, "R-C01-6", fn+":append-sites", fn, c.pos(pis.Pos()), fmt.Sprintf("%d append(s) of an Interface on iteration paths", n), ">= 1", "anchor-missing")
+}
+
+// c01Pref64Lifetime (R-C01-3, arithmetic clause): PREF64 lifetime =
+// 3 × MaxRtrAdvInterval rounded up to a multiple of 8 s, capped at 65528 s —
+// for every accepted interval, fractional ones included, so the scaling is on
+// the duration itself, not on its whole seconds. Decided structurally on the
+// three paths of NewPREF64: with A = 3 × maxInterval, the rounding test is
+// (A % 8s) > 0 (or != 0), the rounded value A + (8s − A % 8s), the unrounded
+// value A, and the cap path returns 65528 s under ¬(A < 65528 s).
+func c01Pref64Lifetime(c *Ctx) {
+	f := c.P.Func("internal/plugin", "NewPREF64")
+	if f == nil {
+		return
+	}
+	fn := c.fname(f)
+	const unit = 8 * 1000000000
+	isA := func(e *an.Expr) bool {
+		// 3 * $maxInterval (a time.Duration)
+		if e.Op != an.OpBin || e.Tok != token.MUL {
+			return false
+		}
+		x, k := e.Args[0], e.Args[1]
+		if _, isC := x.ConstInt(); isC {
+			x, k = k, x
+		}
+		kv, isC := k.ConstInt()
+		return isC && kv == 3 && x.Op == an.OpParam && x.Idx == 1
+	}
+	mod8 := func(e *an.Expr) bool {
+		if e.Op != an.OpBin || e.Tok != token.REM {
+			return false
+		}
+		k, isC := e.Args[1].ConstInt()
+		return isC && k == unit && isA(e.Args[0])
+	}
+	seconds := func(e *an.Expr, inner func(*an.Expr) bool) bool { return inner(e) }
+	rounded := func(e *an.Expr) bool {
+		// A + (8s - A%8s)
+		if e.Op != an.OpBin || e.Tok != token.ADD {
+			return false
+		}
+		a, b := e.Args[0], e.Args[1]
+		if !isA(a) {
+			a, b = b, a
+		}
+		if !isA(a) || b.Op != an.OpBin || b.Tok != token.SUB {
+			return false
+		}
+		k, isC := b.Args[0].ConstInt()
+		return isC && k == unit && mod8(b.Args[1])
+	}
+	n := 0
+	for _, p := range c.pathsO("R-C01-3", f, an.PathOpts{}) {
+		if p.Ret == nil {
+			continue
+		}
+		var lt *an.Expr
+		p.Results[0].Walk(func(x *an.Expr) bool {
+			if x.Op == an.OpStruct {
+				if v := raHeader(x)["Lifetime"]; v != nil && lt == nil {
+					lt = v
+				}
+			}
+			return true
+		})
+		if lt == nil {
+			for _, fs := range an.FindFieldStores([]*ssa.Function{f}, PkgNDP, "PREF64", "Lifetime") {
+				lt = p.Of(fs.Store.Val)
+			}
+		}
+		if lt == nil {
+			continue
+		}
+		n++
+		// what the path decided
+		needsRound, roundTested, belowCap, capTested := false, false, false, false
+		for _, a := range p.Atoms {
+			x, y, op, ok := effCmp(a)
+			if !ok {
+				continue
+			}
+			if mod8(x) {
+				if k, isC := y.ConstInt(); isC && k == 0 && (op == token.GTR || op == token.NEQ || op == token.LEQ || op == token.EQL) {
+					roundTested = true
+					needsRound = op == token.GTR || op == token.NEQ
+				}
+			}
+			if isA(x) && (op == token.LSS || op == token.GEQ) {
+				// against the cap of 65528 s
+				if k, isC := y.ConstInt(); isC && k == 8191*unit {
+					capTested = true
+					belowCap = op == token.LSS
+				}
+			}
+		}
+		state := fmt.Sprintf("below-cap=%s,needs-rounding=%s", tri(belowCap, capTested), tri(needsRound, roundTested))
+		var ok bool
+		switch {
+		case capTested && !belowCap:
+			k, isC := lt.ConstInt()
+			ok = isC && k == 8191*8*1000000000
+		case capTested && roundTested && needsRound:
+			ok = seconds(lt, rounded)
+		case capTested && roundTested && !needsRound:
+			ok = seconds(lt, isA)
+		}
+		c.R.Check(ok, "R-C01-3", fn+":lifetime-arithmetic@"+state, fn, c.pos(p.Ret.Pos()), fmt.Sprintf("Lifetime = %s under %s", lt, state),
+			"3 × maxInterval, rounded up to a multiple of 8 s when (· % 8s) > 0; 65528 s at the cap", "PREF64 lifetime is not 3 × MaxRtrAdvInterval rounded up to a multiple of 8 s")
+	}
+	c.R.Check(n == 3, "R-C01-3", fn+":lifetime-paths", fn, c.pos(f.Pos()), fmt.Sprintf("%d path(s) with a lifetime", n), "3 (capped, rounded, exact)", "the lifetime computation has an unexpected shape")
 }
